@@ -274,15 +274,23 @@ def kernel_stage(v):
             r = {"status": "untranslatable", "problems": [repr(e)[:300]], "kernels": [], "failed": []}
     v.cov["kernel_translation"] = {"status": r["status"], "kernels": len(r["kernels"]), "names": r["kernels"],
                                    "failed": r["failed"], "problems": r["problems"][:5]}
+    v.cov["kernel_translation"]["bad_lanes"] = r.get("bad_lanes", {})
     if r["status"] == "changed-failed":
+        bad = r.get("bad_lanes", {})
         v.violation("kernel-proof " + ",".join(r["failed"])[:160],
-                    {"kind": "proof-obligation", "failed": r["failed"], "output": r.get("output", ""),
+                    {"kind": "kernel-lanes", "failed": r["failed"], "bad_lanes": bad, "output": r.get("output", ""),
                      "note": "the intrinsic transposition kernel(s) named here, translated from the current source, no longer realise the "
-                             "transposition lane map / stay inside the matrices; the real-type runs of this check give the failing input"}, nofail=True)
+                             "transposition lane map / stay inside the matrices.  bad_lanes: per kernel ([(cell of the n x n result, source cell found "
+                             "there (n*n = zeroed lane, none = never stored), source cell expected)], [stores outside the result]); the real-type "
+                             "runs of this check show the same cells on the CPU"}, nofail=not bad)
     elif r["status"] == "untranslatable":
-        v.violation("kernel-untranslatable " + "; ".join(r["problems"])[:160],
-                    {"kind": "proof-obligation", "problems": r["problems"],
-                     "note": "the kernel source changed into something the translator does not cover, so the kernel theorems do not speak about it"}, nofail=True)
+        # the theorems do not speak about the current kernel source; whether the kernels still transpose is decided by the
+        # real-type runs on fenced buffers (every leaf size, both placements, every ISA) — no alarm from here
+        v.notes.append("kernel translation: the current source contains a form the translator does not cover (%s); the intrinsic kernel "
+                       "theorems are not tied to this tree, the kernels are value-tested only in this run" % "; ".join(r["problems"])[:300])
+    elif r["status"] == "changed-proved":
+        v.notes.append("kernel translation: the kernel source differs from the proved snapshot; the regenerated definitions were re-checked "
+                       "and every kernel theorem holds for them")
 
 def run(tier, seed):
     orig = core.proof_stage
